@@ -185,6 +185,25 @@ func c01Run(c *engine.Ctx) {
 		c.Sample(map[string]any{"program": progs[0], "programs": len(progs)})
 	}
 
+	// a definition written inside a sub-expression ends with that sub-expression: every syntactic position that holds a
+	// query, with a definition of f inside it and a use of f after it
+	c.Sub("definition-scopes")
+	if c.MineIdx(4) {
+		defs := []string{`def f: "in"; `, `def f: "in"; def g: f; `, `def f(x): "in"; `, `def h: 0; def f: "in"; `}
+		forms := []string{`. as {(D "a"): $x} | [f, $x]`, `. as {"\(D "a")": $x} | [f, $x]`, `. as [$x] ?// {(D "a"): $x} | [f, $x]`, `. as {(D "a"): [$x]} ?// {(D "a"): $x} | [f, $x]`, `. as {a: $y, (D "a"): $x} | [f, $x, $y]`,
+			`. as {$a, (D "b"): $x} | [f, $x, $a]`, `.[D "a"] | [f, .]`, `.[D "a"]? | [f]`, `[1, 2, 3] | .[(D 1):] | [f, .]`, `[1, 2, 3] | .[:(D 1)] | [f, .]`, `{(D "k"): 1} | [f, .]`, `{k: (D f)} | [., f]`, `[D f] | [., f]`, `"\(D f)" | [., f]`,
+			`if (D true) then f else 0 end`, `if true then (D f) else 0 end | [., f]`, `try (D error("e")) catch f`, `try (D f) catch 0 | [., f]`, `reduce (D 1) as $i (0; f)`, `reduce 1 as $i ((D 0); f)`, `foreach (D 1) as $i (0; 1; f)`, `(D f) as $x | [f, $x]`,
+			`label $l | (D f), f`, `k(D f) | [., f]`, `-(D 1) | [., f]`, `(D 1) + (f | length)`, `(D .) | f`, `[(D f), f]`, `{a: (D f), b: f}`, `(D f) // f | [., f]`, `[.[]? | (D f)] | [., f]`, `(D f) and true | [., f]`, `[limit(1; D f)] | [., f]`,
+			`first(D f) | [., f]`, `path(.[D "a"]) | [., f]`, `(.[D "a"] = 1) | [., f]`, `del(.[D "a"]) | [., f]`, `(D f) as [$x] ?// $x | [f, $x]`, `. as [$x] ?// $x | (D f) | [., f]`, `[.[]?] | map(D f) | [., f]`}
+		for _, d := range defs {
+			for _, f := range forms {
+				prog := `def f: "out"; def f(x): "out1"; def g: "gout"; def k(x): x; ` + strings.ReplaceAll(f, "D ", d)
+				compareProgram(c, prog, []any{univ.J(`{"a":5,"b":6}`), univ.J(`{"a":[7]}`), nil, univ.J(`[8]`)}, nil)
+			}
+		}
+		c.Sample(map[string]any{"program": `def f: "out"; . as {(def f: "in"; "a"): $x} | [f, $x]`, "forms": len(forms), "definitions": len(defs)})
+	}
+
 	// labels are lexically scoped: a label of the same name nested inside another one, with closures that break out
 	// defined before, between and inside them
 	c.Sub("label-scoping")
